@@ -165,10 +165,13 @@ loop:
 				a.last = c
 				break loop
 			}
-			a.dir = filepath.Dir(a.dir)
-			if a.depth > 0 {
-				a.depth--
+			// A goodbye closes the directory that was entered last, there's
+			// nothing to close if none is open
+			if a.depth == 0 {
+				return nil, InvalidFormat{"goodbye element without an open directory"}
 			}
+			a.dir = filepath.Dir(a.dir)
+			a.depth--
 		case nil:
 			// Every directory is closed by a goodbye element, the archive
 			// is cut short if some are missing
